@@ -63,7 +63,7 @@ func Compile(scratch string, idx int, text []byte, mtime int64) *Built {
 			dir = b.RDB2
 		}
 		os.MkdirAll(dir, 0o755)
-		if _, err := rdb.CompileToSpecificRDBVersion(in, dir, rdb.CompilationOptions{NumCPU: 1, UseV2KeySyntax: v2, UseBuilder: true}); err != nil {
+		if _, err := rdb.CompileToSpecificRDBVersion(in, dir, rdb.CompilationOptions{NumCPU: 1, UseV2KeySyntax: v2, UseBuilder: idx%4 == 0}); err != nil {
 			b.Err = "rdb: " + err.Error()
 			return b
 		}
